@@ -613,3 +613,42 @@ class _UnpackCalls(ast.NodeTransformer):
 
 TRANSFORMS["reordered_definitions"] = _ReorderDefs
 TRANSFORMS["unpacked_calls"] = _UnpackCalls
+
+
+class _GuardClauses(ast.NodeTransformer):
+    """a loop body (function body) that ends in `if c: BODY` without else is written `if not c: continue (return); BODY`"""
+    n = 0
+
+    def _guard(self, body, leave):
+        last = body[-1] if body else None
+        if isinstance(last, ast.If) and not last.orelse and len(last.body) >= 2:
+            _GuardClauses.n += 1
+            neg = {ast.Eq: ast.NotEq, ast.NotEq: ast.Eq, ast.Is: ast.IsNot, ast.IsNot: ast.Is, ast.In: ast.NotIn, ast.NotIn: ast.In}
+            t = last.test
+            if isinstance(t, ast.Compare) and len(t.ops) == 1 and type(t.ops[0]) in neg:
+                test = ast.Compare(left=t.left, ops=[neg[type(t.ops[0])]()], comparators=t.comparators)
+            elif isinstance(t, ast.UnaryOp) and isinstance(t.op, ast.Not):
+                test = t.operand
+            else:
+                test = ast.UnaryOp(op=ast.Not(), operand=t)
+            return body[:-1] + [ast.If(test=test, body=[leave()], orelse=[])] + last.body
+        return body
+
+    def visit_For(self, node):
+        self.generic_visit(node)
+        node.body = self._guard(node.body, ast.Continue)
+        return node
+
+    def visit_While(self, node):
+        self.generic_visit(node)
+        node.body = self._guard(node.body, ast.Continue)
+        return node
+
+    def visit_FunctionDef(self, node):
+        self.generic_visit(node)
+        if not any(isinstance(x, (ast.Yield, ast.YieldFrom)) for x in ast.walk(node)):
+            node.body = self._guard(node.body, lambda: ast.Return(value=None))
+        return node
+
+
+TRANSFORMS["guard_clauses"] = _GuardClauses
